@@ -575,10 +575,16 @@ func genC06(r *Rng, tier string, idx int) *c06Case {
 	sz := [][2]int{{3, 8}, {4, 16}, {2, 5}, {8, 32}}[r.Intn(4)]
 	c.npre, c.nsamp = sz[0], sz[1]
 	c.proj = make([]bool, c.nch)
-	switch r.Intn(4) {
+	switch r.Intn(7) { // projectors over all subsets of the channels
 	case 0: // none
 	case 1:
 		for i := range c.proj {
+			c.proj[i] = true
+		}
+	case 2: // only on the last channel
+		c.proj[c.nch-1] = true
+	case 3: // everywhere but on channel 0
+		for i := 1; i < c.nch; i++ {
 			c.proj[i] = true
 		}
 	default:
@@ -728,7 +734,7 @@ func genC06(r *Rng, tier string, idx int) *c06Case {
 			case paused:
 				word = []string{"UNPAUSE", "UNPAUSE", "UNPAUSEL", "STOP"}[r.Intn(4)]
 			default:
-				word = []string{"PAUSE", "PAUSE", "STOP", "STOP", "UNPAUSEL"}[r.Intn(5)]
+				word = []string{"PAUSE", "PAUSE", "STOP", "STOP", "UNPAUSEL", "START"}[r.Intn(6)] // START while active: must be refused
 			}
 		} else {
 			word = []string{"START", "STOP", "PAUSE", "UNPAUSE", "UNPAUSEL", "UNPAUSEBAD", "INVALID", "INVALID"}[r.Intn(8)]
